@@ -289,3 +289,20 @@ PROPS["C04"] = dict(
     stubs=_GLUE_STUBS, assumptions=["SP = 0xDFF0"],
     replay={"*": "solver-only"},
 )
+
+PROPS["C15"] = dict(
+    level="model_checking",
+    groups=lambda tier, seed, ctx: [Group("c15", ["verif_c15"], jobs=5, harness_timeout=3000 if tier == "quick" else 7200, mem_gb=28)],
+    functions=["devices::video::VideoState::{run_clock_cycles (mode 2/3/0 pixel pipeline), find_current_line_sprites, get_object_row, cache_next_tile_row, cache_next_window_tile_row, get_tile_address, get_tile_row}",
+               "devices::video::tile::interleave", "devices::video::lcd::LCD::get_writing_buffer_line"],
+    bounds={"quick": "control values enumerated, contents symbolic: for each of 4 configurations (BG with scroll wrap-around, signed tile addressing and the second map; window starting at WX=163; "
+                     "three overlapping objects with symbolic tiles, flips, palettes and BG-priority bits; eleven objects on a line two of which are off-screen) one full scan line "
+                     "(114 calls of run_clock_cycles) over fully symbolic VRAM (maps and tile data) and palettes, any pixel column compared with the reference compositor; interleave and the "
+                     "X-flip multiply trick for all inputs",
+            "thorough": "plus a window at the left edge and 8x16 objects"},
+    outside=["symbolic scroll/window/OAM positions (enumerated configurations instead; a one-step query over the pixel pipeline with symbolic positions does not finish)",
+             "mid-frame register changes (the statement holds them constant)", "the buffer swap at VBlank is part of C14's step relation"],
+    stubs=["LCD::new -> same value without the push loop"],
+    assumptions=[],
+    replay={"*": "playback"},
+)
